@@ -19,7 +19,7 @@ def run(ctx):
     n = 1200 if ctx.quick else 12000
     ctx.rule = ("case = (mode, entry point [link_to / link_to_hash / ToLinker::open(+partial reads) / WriteOpts::link_to "
                 "with size+integrity options], target length in {0,1,16KiB-1,16KiB,16KiB+1,100KiB}, absolute or "
-                "relative target path with the driver chdir'ed next to the target or elsewhere (ten spellings of the same file: "
+                "relative target path with the driver chdir'ed next to the target or elsewhere (twelve spellings of the same file, incl. a name that is itself a symlink to it: "
                 "./x, ../t/x, sub/../x, symlinked-dir/../x, via a symlinked directory, cwd entered through a symlink, ..//t/./x), partial reads of "
                 "{0,1,8,9,16KiB,all} bytes (optionally followed by read_to_end) before commit, address pre-existing as regular content or not, post-link "
                 "mutation of the target [none/modify/truncate/replace/remove], then removal of the linked entry by key (fully) or by "
@@ -45,7 +45,8 @@ def run(ctx):
         before = snap(tpath)
         # every spelling below names the SAME file as far as the operating system is concerned
         pathkind = rng.choice(["abs", "rel-here", "rel-dotdot", "rel-dot", "rel-sub-dotdot", "rel-symdir-dotdot",
-                               "rel-via-symdir", "abs-symdir-dotdot", "rel-noise", "cwd-via-symlink"])
+                               "rel-via-symdir", "abs-symdir-dotdot", "rel-noise", "cwd-via-symlink",
+                               "abs-file-symlink", "rel-file-symlink"])
         other = os.path.join(base, f"elsewhere{i}")
         if pathkind == "abs":
             tgt, chdir = tpath, None
@@ -75,6 +76,13 @@ def run(ctx):
             os.makedirs(other)
             os.symlink(tdir, os.path.join(other, "ln"))
             tgt, chdir = "ln/target file.bin", other
+        elif pathkind in ("abs-file-symlink", "rel-file-symlink"):
+            # the name the caller uses is itself a symlink to the file (current -> v1.bin)
+            os.symlink("target file.bin", os.path.join(tdir, "current"))
+            if pathkind == "abs-file-symlink":
+                tgt, chdir = os.path.join(tdir, "current"), None
+            else:
+                tgt, chdir = "current", tdir
         else:   # the working directory was entered through a symlink
             os.makedirs(other)
             os.symlink(tdir, os.path.join(other, "cwdlink"))
@@ -132,6 +140,9 @@ def run(ctx):
             lookups += [{"op": "metadata", "cache": cache, "key": key}, {"op": "read", "cache": cache, "key": key}]
         lookups += [{"op": "read_hash", "cache": cache, "sri": sri},
                     {"op": "reader", "cache": cache, "sri": sri, "bufs": [rng.choice([1024, 8192, 65536])]}]
+        if ctx.counters.get("driver_hangs", 0) > 6:
+            ctx.inconc("more than 6 calls did not terminate: the remaining cases are skipped (each costs a watchdog period)")
+            break
         resps = ctx.batch(mode, steps + lookups)
         lr = resps[len(steps):]
         w = resps[len(steps) - (2 if chdir else 1)]
